@@ -97,4 +97,12 @@ pub proof fn lemma_listener_notify_complete(s: LAbs, t: LAbs, k: ConfigKey)
     }
 }
 
+
+// ------------------------------------------------------------------ gRPC subscribers (config_subscribe.rs)
+impl Subscriber {
+    /// connection c is a subscriber of key k
+    pub open spec fn subs(&self, k: ConfigKey, c: Arc<String>) -> bool { self.listener@.contains_key(k) && self.listener@[k]@.contains(c) }
+}
+pub open spec fn listed(items: Seq<ListenerItem>, k: ConfigKey) -> bool { exists|i: int| 0 <= i < items.len() && (#[trigger] items[i]).key == k }
+
 } // verus!
